@@ -1,6 +1,8 @@
 (* Props/C13.v -- property theorems for C13 only. *)
 From LV Require Import DepGraph DepGraphFacts.
 From LVGen Require Import GenDepGraph.
+From LV.Checks Require Import C13Hold C13LtHold.
+From LV Require Import C13LtFacts.
 
 (* structural facts the translator reads off dependency_graph.rs *)
 Theorem c13_tables :
@@ -60,3 +62,27 @@ Proof.
     do 4 (destruct u as [|u]; [cbn in E; cbn; intuition lia|]). destruct u; destruct E.
   - split; reflexivity.
 Qed.
+
+(* the libcnb-test route (TestRunner::build with WorkspaceBuildpack / CurrentCrate): an observation the
+   C13LT stream accepts reached `pack build` with the selected buildpack, and what was packaged is
+   exactly what is reachable from the selection *)
+Theorem c13_lt_oracle_sound :
+  forall c g rs out,
+    create_graph (l_nodes c) = CgOk g ->
+    resolve_roots (map fst (l_nodes c)) [l_root c] = Some rs ->
+    acyclic g -> get_dependencies g rs = Some out ->
+    C13LtHold.holds c = true ->
+    l_ok c = true /\ l_chosen c = Some (l_root c) /\
+    forall x, In x (l_packaged c) <->
+              exists i, reachable_from g rs i /\ nth i (map fst (l_nodes c)) 0 = x.
+Proof. exact lt_oracle_sound. Qed.
+Print Assumptions c13_lt_oracle_sound.
+
+Theorem c13_lt_oracle_error :
+  forall c, C13LtHold.holds c = true -> l_ok c = false ->
+    (exists d, create_graph (l_nodes c) = CgMissing d) \/
+    resolve_roots (map fst (l_nodes c)) [l_root c] = None \/
+    (exists g rs, create_graph (l_nodes c) = CgOk g /\ resolve_roots (map fst (l_nodes c)) [l_root c] = Some rs /\
+                  get_dependencies g rs = None).
+Proof. exact lt_oracle_error. Qed.
+Print Assumptions c13_lt_oracle_error.
